@@ -40,6 +40,7 @@ var fnTargets = []struct {
 	// functions over time.Time values (Go.Time, CM/Lib/GoLite): `time.Now()` is the parameter `now`
 	{"fileLockIsStale", "def fileLockIsStale (_ : Go.Time) (_ : lockMeta) : Bool := false", nil},
 	{"currentOCSP", "def currentOCSP (_ : Go.Time) (_ : ocsp_Response) : Bool := false", nil},
+	{"freshOCSP", "def freshOCSP (_ : Go.Time) (_ : ocsp_Response) : Bool := false", nil},
 	// pointers that the body compares with nil are Options; `x.f` on them goes through Go.deref
 	{"expiresAt", "def expiresAt (_ : Option x509_Certificate) : Go.Time := 0", nil},
 	{"certShouldBeForceRenewed", "def certShouldBeForceRenewed (_ : Certificate) : Bool := false", nil},
@@ -57,7 +58,7 @@ var fnStructs = map[string][][3]string{
 	"RingBufferRateLimiter": {{"window", "time.Duration", "Int"}, {"ring", "[]time.Time", "List τ"}, {"cursor", "int", "Int"}},
 	"lockMeta":              {{"Created", "time.Time", "Go.Time"}, {"Updated", "time.Time", "Go.Time"}},
 	// a type of another package: its fields cannot be checked against this repository's source
-	"ocsp.Response":    {{"ThisUpdate", "time.Time", "Go.Time"}, {"NextUpdate", "time.Time", "Go.Time"}, {"Status", "int", "Int"}},
+	"ocsp.Response":    {{"ThisUpdate", "time.Time", "Go.Time"}, {"NextUpdate", "time.Time", "Go.Time"}, {"Status", "int", "Int"}, {"Certificate", "*x509.Certificate", "Option x509_Certificate"}},
 	"x509.Certificate": {{"NotAfter", "time.Time", "Go.Time"}},
 	"url.URL":          {{"Path", "string", "Str"}},
 	"http.Request":     {{"Method", "string", "Str"}, {"URL", "*url.URL", "url_URL"}},
@@ -65,7 +66,7 @@ var fnStructs = map[string][][3]string{
 }
 
 // the order in which the structures are printed (a structure after those its fields mention)
-var fnStructOrder = []string{"RingBufferRateLimiter", "lockMeta", "ocsp.Response", "x509.Certificate", "url.URL", "http.Request", "Certificate"}
+var fnStructOrder = []string{"RingBufferRateLimiter", "lockMeta", "x509.Certificate", "ocsp.Response", "url.URL", "http.Request", "Certificate"}
 
 // constants of other packages
 var fnForeignConsts = map[string]string{"http.MethodGet": "(Go.s \"GET\")", "ocsp.Good": "(0 : Int)", "ocsp.Revoked": "(1 : Int)", "ocsp.Unknown": "(2 : Int)"}
